@@ -57,6 +57,13 @@ def eval_case(case):
                 else:
                     realrun.git(pr.root, "commit", "-q", "--allow-empty", "-a", "-m", "c%d" % (i + 1))
             hist += statecheck.run_history(pr, rng, 1)
+        if case["git"] and case.get("branch_switch"):
+            # HEAD moves to a sibling branch: recorded versions sit on commits that are not ancestors of HEAD
+            # (so `cond where` finds nothing) - they are still recorded versions and must be archived
+            realrun.git(pr.root, "checkout", "-q", "--", ".", check=False)
+            first = realrun.git(pr.root, "rev-list", "--max-parents=0", "HEAD").splitlines()[0]
+            realrun.git(pr.root, "checkout", "-q", "-b", "sibling", first)
+            realrun.git(pr.root, "commit", "-q", "--allow-empty", "-m", "on sibling")
         if case.get("foreign"):
             # versions from another clone whose clock was elsewhere: timestamps may coincide ACROSS tasks
             # (an old version of one task with the newest version of another)
@@ -200,6 +207,53 @@ def eval_case(case):
     return out
 
 
+def big_closure_case(arg):
+    """`cond archive <task>` over a closure of several hundred experiments (rows and directories are
+    created directly; the index itself is created by Conductor)"""
+    ntasks, latest = arg
+    cli.warm()
+    import sqlite3
+    out = {"sig": "big-closure-%d-%s" % (ntasks, latest), "nontrivial": True, "reach": {}, "violations": [], "inconclusive": [], "sets": {}}
+    with common.Scratch("cv11b") as sc:
+        tasks = [gen.mk_task(["", "a", "a/b"][i % 3], "x%d" % i, "run_experiment", run="true") for i in range(ntasks)]
+        for t in tasks:
+            t["raw_run"] = True
+        tasks.append(gen.mk_task("", "all", "group", [t["id"] for t in tasks]))
+        pr = realrun.Project(sc.root, tasks, {})
+        pr.cond(["where", "-f", "//:all"], timeout=60)
+        c = sqlite3.connect(os.path.join(pr.root, "cond-out", "version_index.sqlite"))
+        rows = []
+        for i, t in enumerate(tasks[:-1]):
+            for v in range(1 + (i % 2)):
+                ts = 1000 + 2 * i + v
+                rows.append((t["id"], ts, None, 0))
+                d = pr.out_dir(t["id"], ts)
+                os.makedirs(d)
+                open(os.path.join(d, "o"), "w").write(str(ts))
+        c.executemany("INSERT INTO version_index (task_identifier, timestamp, git_commit_hash, has_uncommitted_changes) VALUES (?,?,?,?)", rows)
+        c.commit()
+        c.close()
+        want = select_model(pr.tb, sorted([list(r) for r in rows]), "//:all", latest)
+        ap = os.path.join(sc.root, "big.tar.gz")
+        r = pr.cond(["archive", "//:all", "-o", ap] + (["--latest"] if latest else []), timeout=300)
+        W = {"engine": "E4", "ntasks": ntasks, "latest": latest, "archive_result": cli.brief(r, 800)}
+        out["reach"]["c11_big_closure_archives"] = 1
+        if r.code != 0:
+            out["violations"].append({"key": "C11:archive-failed", "msg": "cond archive //:all over %d experiments failed: %s" % (ntasks, r.err[-300:]), "witness": W})
+            return out
+        dest = realrun.Project(sc.sub("clone"), [gen.Task(t) for t in gen.dump(tasks)], {}, name="q")
+        r2 = dest.cond(["restore", ap], timeout=300)
+        W["restore_result"] = cli.brief(r2, 800)
+        got = dest.rows()
+        if r2.code != 0 or sorted(got) != want:
+            miss = [x for x in want if x not in got][:5]
+            extra = [x for x in got if x not in want][:5]
+            out["violations"].append({"key": "C11:restored-rows-differ-from-selection", "msg": "closure of %d experiments: restore exit %s; %d rows restored, %d selected; missing %s extra %s" % (ntasks, r2.code, len(got), len(want), miss, extra), "witness": W})
+        out["reach"]["c11_version_trees_compared"] = len(want)
+        out["sample"] = {"big_closure": ntasks, "rows": len(rows), "selected": len(want)}
+    return out
+
+
 def main(tier, n=None):
     rep = common.Report(PROP, tier, "exploration", RULE)
     rep.assumptions = ["don't-care: mtimes, ownership, group/other permission bits; where the archive file itself is stored", "compared per version: file type, owner rwx bits, symlink targets, bytes"]
@@ -209,11 +263,14 @@ def main(tier, n=None):
     for i in range(total):
         cases.append({"seed": rng.randrange(1 << 30), "nruns": rng.randint(1, 4), "task": rng.choice([None, None, "//:g", "//:dd", "//a/b:e3", "//:k", "//c-d:e4", "//:d1", "//a:c1"]),
                       "latest": rng.random() < 0.4, "out": rng.choice(["file", "dir", "default"]), "into": rng.choice(["clean", "clone"]), "git": rng.random() < 0.4,
-                      "dangling": rng.random() < 0.25, "foreign": rng.random() < 0.35, "stale_archive_index": rng.random() < 0.3})
+                      "dangling": rng.random() < 0.25, "foreign": rng.random() < 0.35, "stale_archive_index": rng.random() < 0.3, "branch_switch": rng.random() < 0.4})
     cli.warm()
     res = common.parallel_map(eval_case, cases, timeout=900)
     rep.merge_pool(res, cases)
-    return rep.finish(required_reach=["c11_archives", "c11_restores", "c11_version_trees_compared", "c11_source_unchanged_checks"])
+    big = [(600, False), (501, True)] if tier == "quick" else [(600, False), (501, True), (1001, False), (513, False), (1500, True)]
+    res2 = common.parallel_map(big_closure_case, big, timeout=900)
+    rep.merge_pool(res2, big)
+    return rep.finish(required_reach=["c11_archives", "c11_restores", "c11_version_trees_compared", "c11_source_unchanged_checks", "c11_big_closure_archives"])
 
 
 def replay(path):
